@@ -52,6 +52,17 @@ func (pq *processQueue) Next() (item processItem) {
 	return
 }
 
+// Remove takes the given item out of the queue, wherever it is
+func (pq *processQueue) Remove(item processItem) {
+	old := *pq
+	for i := range old {
+		if old[i] == item {
+			*pq = append(old[:i:i], old[i+1:]...)
+			return
+		}
+	}
+}
+
 func (pq processQueue) GetQueue() []processItem {
 	return pq
 }
